@@ -169,6 +169,9 @@ def run_case(case):
         if kind.startswith("net"):
             v = build_net(case["state"][name])
             nets[name] = v
+        elif kind.startswith("view:"):
+            nets[name] = build_net(case["state"][name])
+            v = getattr(nets[name], kind.split(":")[1])
         elif kind == "kwattr":
             kwargs.update(dec(e))
             continue
